@@ -15,7 +15,8 @@
     html_reparse_safe_partial xhtml_reparse_safe_partial default_config_markup_ok css_pass_order_matters
     attr_values_decode_stable html_reparse_events_safe_partial redecode_witness
     css_ok css_no_negative_margin password_inputs_dropped no_password_input password_rule_reference_witness
-    html_reparse_prolog_safe_partial
+    html_reparse_prolog_safe_partial xhtml_reparse_prolog_safe_partial xhtml_doctype_quote_witness
+    decode_loop_fuel_independent comment_loop_fuel_independent loops_end_stable
 -/
 import Genshi.Lemmas.SanNest
 import Genshi.Lemmas.SanTree
@@ -27,6 +28,8 @@ import Genshi.Lemmas.SanReparse
 import Genshi.Lemmas.SanLayer
 import Genshi.Lemmas.SanRules
 import Genshi.Lemmas.SanReparseProlog
+import Genshi.Lemmas.SanReparsePrologX
+import Genshi.Lemmas.SanFuel
 import Genshi.Props.C08
 namespace Genshi.Props.C06
 open Genshi Genshi.San Genshi.San.Spec
@@ -777,6 +780,124 @@ example : (do
     some [.doctype ['h', 't', 'm', 'l', ' ', 'S', 'Y', 'S', 'T', 'E', 'M', ' ', '"', 'x', '.', 'd', 't', 'd', '"'], .text ['\n'],
       .start ['d', 'i', 'v'] [] false, .pi ['p', 'h', 'p', ' ', 'e', 'c', 'h', 'o', '?'], .text ['a', '<'], .end_ ['d', 'i', 'v']] := by
   decide +kernel
+
+/-! ### the same for the XHTML method (wave 4)
+
+  Composition of `dropped_subtree_absent` with C08's events-level `xhtml_roundtrip_prolog_partial`
+  (`XhtmlOkAllP` / `foldXP`, a reader with a CDATA state).  Established by the filter: no CDATA
+  marker reaches the serializer (the XML reader never enters a section), a kept PI holds no `>`
+  and so no `?>`.  Asked of the *sanitized* forest `p` (the filter does not establish them; both
+  are hypotheses of C08's XML round trip): no LF / TAB / CR in emitted attribute values
+  (`forestAttrVals`, finding C08-attr-ws) and well-quoted emitted DOCTYPE literals
+  (`forestDtQuoted` = C08's `dtScan true`: an XML tokenizer is quote-aware inside a DOCTYPE; a
+  name like `a"b`, which no XML parser yields, would make it read on to the next quote —
+  `xhtml_doctype_quote_witness` below).  Any `drop_xml_decl`.  `_partial`: `strip_whitespace=False`,
+  no doctype option, no XML declaration / namespace leaves, text leaves not Markup, tokenizer
+  level (before namespace resolution). -/
+
+theorem xhtml_reparse_prolog_safe_partial {cfg : Cfg} (hm : CfgMarkupOk cfg) (hcss : CssNamesPlain cfg)
+    (cache dropd : Bool) (ns : List Node) (hok : okList ns = true) (hpl : prologForest ns = true) :
+    ∃ p, sanitize cfg (flattenList ns) = .ok (flattenList p) ∧
+      (forestAttrVals p = true → forestDtQuoted p = true →
+        ∃ toks, (Genshi.Output.render .xhtml { strip := false, cache := cache, doctype := none, dropXmlDecl := dropd }
+            (flattenList p)).bind (Genshi.Reader.tokens true) = some toks ∧
+          ∀ t ∈ toks, TokSafeP cfg t) := by
+  obtain ⟨p, hp⟩ : ∃ p, pruneList cfg ns = .ok p := by
+    have h1 := keep_list cfg ns [] hok
+    obtain ⟨o, ho⟩ := sanitizeFrom_ok cfg St.init (flattenList ns ++ [])
+    cases hp : pruneList cfg ns with
+    | ok p => exact ⟨p, rfl⟩
+    | error e => rw [h1, hp] at ho; cases ho
+  have hgood := pruneList_goodP cfg ns p hpl hp
+  obtain ⟨⟨h1, h2⟩, h3⟩ := forestF_good hm p hgood
+  refine ⟨p, ?_, fun hv hq => ?_⟩
+  · have := keep_list cfg ns [] hok
+    simp only [List.append_nil] at this
+    unfold sanitize
+    rw [this, hp]
+    simp [sanitizeFrom]
+  · have hx := forestF_extra p hv hq
+    have hall : ∀ ev ∈ Genshi.Output.forestF p, FEvGood cfg ev ∧ XExtra ev := fun ev hev => ⟨h3 ev hev, hx ev hev⟩
+    refine ⟨Genshi.Reader.xhtmlExpectedP ⟨dropd⟩ (Genshi.Output.forestF p), ?_,
+      xhtmlExpectedP_safe css_comments_dotall hm hcss ⟨dropd⟩ _ hall⟩
+    have hc : Genshi.Output.render .xhtml { strip := false, cache := cache, doctype := none, dropXmlDecl := dropd } (flattenList p) =
+        Genshi.Output.render .xhtml { strip := false, cache := false, doctype := none, dropXmlDecl := dropd } (flattenList p) := by
+      cases cache
+      · rfl
+      · exact Genshi.Props.C08.render_cache_irrelevant' .xhtml false none dropd (flattenList p)
+    rw [hc]
+    have hf := Genshi.Output.filtered_forest .xhtml false dropd p h1 h2
+    simp only [Genshi.Output.render, Genshi.Output.chunks, hf, Option.map_some, Option.bind_some]
+    exact Genshi.Props.C08.xhtml_roundtrip_prolog_partial _ _ _ (okAllXP_of_good hm ⟨dropd⟩ _ hall {})
+      (foldXP_cd_none hm ⟨dropd⟩ _ hall {} {} rfl)
+
+-- non-vacuity: a DOCTYPE, a kept PI, a PI holding `>` (dropped), a CDATA section (markers dropped), a
+-- DOCTYPE holding `>` (dropped); the sanitized forest satisfies both extra hypotheses
+example : prologForest [.leaf (.doctype ['h', 't', 'm', 'l'] none (some ['x', '.', 'd', 't', 'd'])),
+    .elem divTag [] [.leaf (.pi ['p', 'h', 'p'] ['e', 'c', 'h', 'o']), .leaf .startCdata, .leaf (.text ['a', '<'] false),
+      .leaf .endCdata, .leaf (.pi ['x'] ['a', '>', '<', 's'])],
+    .leaf (.doctype ['h', 't', 'm', 'l'] none (some ['x', '\'', '>', '<', 's', '>']))] = true := by decide
+example : forestAttrVals [.leaf (.doctype ['h', 't', 'm', 'l'] none (some ['x', '.', 'd', 't', 'd'])),
+      .elem divTag [] [.leaf (.pi ['p', 'h', 'p'] ['e', 'c', 'h', 'o']), .leaf (.text ['a', '<'] false)]] = true ∧
+    forestDtQuoted [.leaf (.doctype ['h', 't', 'm', 'l'] none (some ['x', '.', 'd', 't', 'd'])),
+      .elem divTag [] [.leaf (.pi ['p', 'h', 'p'] ['e', 'c', 'h', 'o']), .leaf (.text ['a', '<'] false)]] = true := by decide
+example : (do
+    let o ← (sanitize Cfg.default [.doctype ['h', 't', 'm', 'l'] none (some ['x', '.', 'd', 't', 'd']), .start divTag [],
+      .pi ['p', 'h', 'p'] ['e', 'c', 'h', 'o'], .startCdata, .text ['a', '<'] false, .endCdata, .pi ['x'] ['a', '>', '<', 's'],
+      .end_ divTag, .doctype ['h', 't', 'm', 'l'] none (some ['x', '\'', '>', '<', 's', '>'])]).toOption
+    let txt ← Genshi.Output.render .xhtml { strip := false, cache := true, doctype := none, dropXmlDecl := false } o
+    Genshi.Reader.tokens true txt) =
+    some [.doctype ['h', 't', 'm', 'l', ' ', 'S', 'Y', 'S', 'T', 'E', 'M', ' ', '"', 'x', '.', 'd', 't', 'd', '"'], .text ['\n'],
+      .start ['d', 'i', 'v'] [] false, .pi ['p', 'h', 'p', ' ', 'e', 'c', 'h', 'o'], .text ['a', '<'], .end_ ['d', 'i', 'v']] := by
+  decide +kernel
+
+/-- The hypothesis `forestDtQuoted` is needed for an XML tokenizer (not for an HTML one, see
+    `html_reparse_prolog_safe_partial`): the sanitizer keeps `<!DOCTYPE a"b>` (no `>` inside), and the
+    quote-aware XML reader swallows the following start tag into the declaration (up to the next
+    quote, here the one in the text) — expat itself rejects such a document. -/
+theorem xhtml_doctype_quote_witness :
+    sanitize Cfg.default [.doctype ['a', '"', 'b'] none none, .start divTag [], .text ['"', 'x'] false, .end_ divTag] =
+      .ok [.doctype ['a', '"', 'b'] none none, .start divTag [], .text ['"', 'x'] false, .end_ divTag] ∧
+    (Genshi.Output.render .xhtml { strip := false, cache := true, doctype := none, dropXmlDecl := true }
+        [.doctype ['a', '"', 'b'] none none, .start divTag [], .text ['"', 'x'] false, .end_ divTag]).bind
+      (Genshi.Reader.tokens true) ≠
+      some [.doctype ['a', '"', 'b'], .text ['\n'], .start ['d', 'i', 'v'] [] false, .text ['"', 'x'], .end_ ['d', 'i', 'v']] := by
+  decide +kernel
+
+/-! ## The repeat-until-stable loops at any depth (wave 4)
+
+  The code repeats reference decoding of an attribute value and comment removal of a style text
+  `while` the text changes; the model carries fuel (`length + 1`).  The fuel is never what ends a
+  loop: a pass that changes the text shortens it, so every larger fuel gives the same result —
+  the model describes the unbounded `while` loops of the code at every depth, also for a value
+  wrapped in thousands of `&amp;` layers (stream `deep` of the harness: model and code compared
+  at depths beyond the interpreter's recursion limit), and the result is stable under one more
+  pass. -/
+
+theorem decode_loop_fuel_independent (s : Str) (g : Nat) (hg : s.length < g) : stripRefsFix g s = stripRefs s :=
+  stripRefs_fuel s g hg
+
+theorem comment_loop_fuel_independent (s : Str) (g : Nat) (hg : s.length < g) :
+    stripCommentsFix Genshi.Gen.SanClass.commentsDotall g s = stripCssComments s := by
+  unfold stripCssComments
+  rw [css_comments_dotall]
+  exact stripCommentsFix_fuel g (s.length + 1) s hg (Nat.lt_succ_self _)
+
+theorem loops_end_stable (s : Str) :
+    (∀ v, stripRefs s = .ok v → stripentities v = .ok v ∧ v.length ≤ s.length) ∧
+    stripCommentsOnce Genshi.Gen.SanClass.commentsDotall (stripCssComments s) = stripCssComments s := by
+  refine ⟨fun v h => ⟨stripRefs_fixed h, stripRefsFix_passes _ s (Nat.lt_succ_self _) v h⟩, ?_⟩
+  unfold stripCssComments
+  rw [css_comments_dotall]
+  exact stripCommentsFix_fixed _ s (Nat.lt_succ_self _)
+
+-- non-vacuity: three layers of `&amp;` need four passes; a staggered comment needs two
+example : stripRefs ['&', 'a', 'm', 'p', ';', 'a', 'm', 'p', ';', 'a', 'm', 'p', ';', '#', '1', '0', '6', ';'] = .ok ['j'] := by
+  decide +kernel
+example : stripentities ['&', 'a', 'm', 'p', ';', 'a', 'm', 'p', ';', 'a', 'm', 'p', ';', '#', '1', '0', '6', ';'] =
+    .ok ['&', 'a', 'm', 'p', ';', 'a', 'm', 'p', ';', '#', '1', '0', '6', ';'] := by decide +kernel
+example : stripCssComments ['e', '/', '/', '*', '*', '/', '*', '*', '/', 'x'] = ['e', 'x'] ∧
+    stripCommentsOnce true ['e', '/', '/', '*', '*', '/', '*', '*', '/', 'x'] = ['e', '/', '*', '*', '/', 'x'] := by decide +kernel
 
 /-! ## The order of the two CSS passes
 
